@@ -10,6 +10,7 @@ mod logger;
 mod monitors;
 mod phy;
 mod rng;
+mod rx;
 mod scenario;
 mod shrink;
 mod slave;
